@@ -216,6 +216,16 @@ contract(F + "Continuum.merge",
                            inv=["merged_upto(T(), iU)", "implies(not in_place, same_view(self))"])},
          hooks=[("before", "for annotator in continuum.annotators: ...", "model_inv wfmap(continuum)")],
          serves={"C13", "C14"})
+contract(F + "Continuum.__add__",
+         params={"self": CONT(), "other": CONT()}, returns=OptObjT(CONT()), modifies=[], macros=MERGE_MACROS,
+         lets={"continuum": "other"},
+         requires=["RI(self)", "RI(other)", "not same_obj(self, other)"],
+         ensures=[cl("not isnone(result) and fresh_obj(some(result)) and disjoint_state(some(result), self) and "
+                     "disjoint_state(some(result), other)", "C13 C14", name="independent"),
+                  cl("merged_upto(some(result), NumUnits(other))", "C13", name="same-as-out-of-place-merge"),
+                  cl("same_view(self)", "C13 C14", name="self-unchanged")],
+         serves={"C13", "C14"})
+
 # =========================================================================================================
 # Continuum.get_best_alignment / get_best_soft_alignment        (C01, C02, C03-D4, C08, C11, C14)
 #
